@@ -133,7 +133,22 @@ fn pat_j(p: &Pat) -> J {
         Pat::Or(x) => node("POr", sp, vec![("cases", J::Arr(x.cases.iter().map(pat_j).collect()))]),
         Pat::Paren(x) => pat_j(&x.pat),
         Pat::Path(x) => node("PPath", sp, vec![("path", path_j(&x.path))]),
-        Pat::Range(x) => node("PRange", sp, vec![("src", toks(x))]),
+        Pat::Range(x) => node(
+            "PRange",
+            sp,
+            vec![
+                ("src", toks(x)),
+                ("lo", match &x.start {
+                    Some(e) => expr_j(e),
+                    None => J::Null,
+                }),
+                ("hi", match &x.end {
+                    Some(e) => expr_j(e),
+                    None => J::Null,
+                }),
+                ("inclusive", J::Bool(matches!(x.limits, RangeLimits::Closed(_)))),
+            ],
+        ),
         Pat::Reference(x) => node("PRef", sp, vec![("pat", pat_j(&x.pat)), ("mut", J::Bool(x.mutability.is_some()))]),
         Pat::Rest(_) => node("PRest", sp, vec![]),
         Pat::Slice(x) => node("PSlice", sp, vec![("elems", J::Arr(x.elems.iter().map(pat_j).collect()))]),
@@ -187,6 +202,30 @@ fn macro_j(m: &Macro, sp: Span) -> J {
         }
         Err(_) => {
             v.push(("args", J::Null));
+        }
+    }
+    if v.iter().any(|(k, x)| *k == "name" && matches!(x, J::Str(n) if n == "matches")) {
+        // matches!(expr, pattern [if guard]): the pattern is kept as a pattern
+        let parser = |input: syn::parse::ParseStream| -> Result<(Expr, Pat, Option<Expr>)> {
+            let e: Expr = input.parse()?;
+            input.parse::<Token![,]>()?;
+            let p = Pat::parse_multi_with_leading_vert(input)?;
+            let g = if input.peek(Token![if]) {
+                input.parse::<Token![if]>()?;
+                Some(input.parse::<Expr>()?)
+            } else {
+                None
+            };
+            let _ = input.parse::<Option<Token![,]>>()?;
+            Ok((e, p, g))
+        };
+        if let Ok((e, p, g)) = syn::parse::Parser::parse2(parser, m.tokens.clone()) {
+            v.push(("mexpr", expr_j(&e)));
+            v.push(("mpat", pat_j(&p)));
+            v.push(("mguard", match &g {
+                Some(g) => expr_j(g),
+                None => J::Null,
+            }));
         }
     }
     v.push(("tokens", s(m.tokens.to_string())));
